@@ -39,6 +39,38 @@ fn cpaths(p: &Vec<Vec<String>>) -> String {
     clist(p.iter().map(|s| clist(s.iter().map(|x| cstr(x)))))
 }
 
+/// Registry of a program and, per entry, the label of the SOURCE definition it instantiates, for the
+/// clause "instantiations of one generic definition still share one path" (C04).  A definition is
+/// labelled only if it belongs to the class the clause quantifies over as far as the definition alone
+/// decides it: no skipped parameter occurs in a field type (such "instantiations" are the
+/// associated-type variants of C03 and legitimately differ in shape) and no parameter sits directly
+/// under a transparent wrapper (Box<T>, Cow<T>).  Coincidences between arguments and concrete field
+/// types are NOT excluded: splits caused by them are the recorded finding F18.
+pub fn labelled(p: &reggen::Program) -> (Value, Vec<Option<usize>>) {
+    use reggen::{Body, Src};
+    fn bad(t: &Src, skipped: &[bool]) -> bool {
+        match t {
+            Src::Param(i) => skipped.get(*i).copied().unwrap_or(false),
+            Src::BoxT(a) | Src::Cow(a) if matches!(**a, Src::Param(_)) => true,
+            Src::App(_, a) | Src::Tuple(a) => a.iter().any(|x| bad(x, skipped)),
+            Src::Vec(a) | Src::VecDeque(a) | Src::Array(_, a) | Src::Compact(a) | Src::BoxT(a) | Src::Opt(a)
+            | Src::BTreeSet(a) | Src::Cow(a) | Src::Range(a) => bad(a, skipped),
+            Src::Res(a, b) | Src::BTreeMap(a, b) => bad(a, skipped) || bad(b, skipped),
+            Src::Prim(_) | Src::BitVec(..) => false,
+        }
+    }
+    let in_class: Vec<bool> = p.defs.iter().map(|d| {
+        let skipped: Vec<bool> = d.params.iter().map(|x| x.1).collect();
+        let fields: Vec<&reggen::FieldDef> = match &d.body {
+            Body::Struct(fs) => fs.iter().collect(),
+            Body::Enum(vs) => vs.iter().flat_map(|v| v.2.iter()).collect(),
+        };
+        !fields.iter().any(|f| bad(&f.ty, &skipped))
+    }).collect();
+    let (rj, labels) = reggen::build_labelled(p);
+    (rj, labels.into_iter().map(|l| l.filter(|d| in_class[*d])).collect())
+}
+
 pub fn evals(prop: &str) -> Vec<(&'static str, &'static str)> {
     let mut v = vec![("corr_dedup", "corr_dedup"), ("corr_dd_tg", "corr_dd_tg"), ("corr_teq_trace", "corr_teq_trace_dd")];
     if prop == "C03" {
@@ -47,6 +79,9 @@ pub fn evals(prop: &str) -> Vec<(&'static str, &'static str)> {
             ("prop_dedup_no_conflation", "prop_dedup_no_conflation"),
             ("known_TE_arity", "known_TE_arity"),
             ("known_TE_unsound", "known_TE_unsound"),
+            ("prop_family_outcome", "prop_family_outcome"),
+            ("hyp_family_wf", "hyp_family_wf"),
+            ("hyp_family_dup", "hyp_family_dup"),
         ]);
     } else {
         v.extend([
@@ -56,6 +91,13 @@ pub fn evals(prop: &str) -> Vec<(&'static str, &'static str)> {
             ("prop_idempotent", "prop_idempotent"),
             ("known_suffix_collision", "known_suffix_collision"),
             ("known_not_fixpoint", "known_not_fixpoint"),
+            ("corr_dd_labels", "corr_dd_labels"),
+            ("prop_instantiations_stay", "prop_instantiations_stay"),
+            ("known_F18_split", "known_F18_split"),
+            ("known_F3_split", "known_F3_split"),
+            ("hyp_instantiations", "hyp_instantiations"),
+            ("hyp_instantiations_renamed", "hyp_instantiations_renamed"),
+            ("hyp_instantiations_skel_differ", "hyp_instantiations_skel_differ"),
         ]);
     }
     v.extend([("hyp_has_family", "hyp_has_family"), ("hyp_renamed", "hyp_renamed"), ("hyp_gen_before_ok", "hyp_gen_before_ok")]);
@@ -70,8 +112,14 @@ pub fn generate(prop: &str, tier: &str, seed: u64, out: &Path, nshards: usize, r
     let mut seen: HashSet<String> = HashSet::new();
     let mut nontrivial = 0usize;
     let mut kinds: BTreeMap<String, usize> = BTreeMap::new();
-    let mut push = |stream: &str, rj: &Value, shards: &mut Shards, meta: &mut Meta| {
+    let mut exhaustive = json!(null);
+    let mut push = |stream: &str, rj: &Value, labels: Option<&[Option<usize>]>, shards: &mut Shards, meta: &mut Meta| {
         let reg = reggen::to_registry(rj);
+        // per entry: the source definition it instantiates (C04 "instantiations stay together")
+        let defs: Vec<Option<usize>> = match labels {
+            Some(l) => { assert_eq!(l.len(), reg.types.len(), "harness: one label per entry"); l.to_vec() }
+            None => vec![None; reg.types.len()],
+        };
         let mut spec = SettingsSpec::default();
         spec.ops.extend(bit_order_subs(&reg));
         let before = observe_tg(&reg, &spec);
@@ -84,7 +132,7 @@ pub fn generate(prop: &str, tier: &str, seed: u64, out: &Path, nshards: usize, r
             None => (once.clone(), None),
         };
         let term = format!(
-            "(mk_dd {} {} {} {} {})",
+            "(mk_dd {} {} {} {} {} {})",
             cstr(stream),
             coq_case(stream, &reg, &spec, &before, &None),
             once.coq(cpaths),
@@ -92,7 +140,8 @@ pub fn generate(prop: &str, tier: &str, seed: u64, out: &Path, nshards: usize, r
             match &after {
                 Some((r1, o)) => format!("(Some {})", coq_case(stream, r1, &spec, o, &None)),
                 None => "None".into(),
-            }
+            },
+            clist(defs.iter().map(|d| crate::coq::copt(d.map(|x| crate::coq::cn(x as u128)))))
         );
         let k = format!(
             "before:{} after:{}",
@@ -112,7 +161,7 @@ pub fn generate(prop: &str, tier: &str, seed: u64, out: &Path, nshards: usize, r
         if seen.insert(rj.to_string()) && fam {
             nontrivial += 1;
         }
-        let j = json!({"stream": stream, "input": {"registry": rj},
+        let j = json!({"stream": stream, "input": {"registry": rj, "defs": defs},
                        "observed_paths_once": once.json(|p| json!(p.iter().map(|s| s.join("::")).collect::<Vec<_>>())),
                        "observed_paths_twice": twice.json(|p| json!(p.iter().map(|s| s.join("::")).collect::<Vec<_>>())),
                        "generate_before": before.gen.kind(),
@@ -127,7 +176,10 @@ pub fn generate(prop: &str, tier: &str, seed: u64, out: &Path, nshards: usize, r
     if let Some(p) = replay {
         let v: Value = serde_json::from_str(&std::fs::read_to_string(p).unwrap()).unwrap();
         let input = if v.get("input").is_some() { v["input"].clone() } else { v };
-        push("replay", &input["registry"], &mut shards, &mut meta);
+        let labels: Option<Vec<Option<usize>>> = input.get("defs").and_then(|d| d.as_array()).map(|a| {
+            a.iter().map(|x| x.as_u64().map(|n| n as usize)).collect()
+        });
+        push("replay", &input["registry"], labels.as_deref(), &mut shards, &mut meta);
     } else {
         // recorded witnesses first
         let dir = crate::util::verif_dir().join("corpus").join("families");
@@ -138,38 +190,64 @@ pub fn generate(prop: &str, tier: &str, seed: u64, out: &Path, nshards: usize, r
                 if let Ok(t) = std::fs::read_to_string(&p) {
                     if let Ok(v) = serde_json::from_str::<Value>(&t) {
                         let input = if v.get("input").is_some() { v["input"].clone() } else { v };
-                        push("corpus", &input["registry"], &mut shards, &mut meta);
+                        // witnesses may carry the definition labels of their entries (input.defs)
+                        let labels: Option<Vec<Option<usize>>> = input.get("defs").and_then(|d| d.as_array()).map(|a| {
+                            a.iter().map(|x| x.as_u64().map(|n| n as usize)).collect()
+                        });
+                        push("corpus", &input["registry"], labels.as_deref(), &mut shards, &mut meta);
                     }
                 }
             }
         }
+        // hand-built associated-type families (X<A1>, X<A2> with Inner = u8, X<B> with Inner = u32) in
+        // several orders; also fed to C01
+        for rj in crate::tgprops::three_member_families() {
+            push("three-members", &rj, None, &mut shards, &mut meta);
+        }
+        // every family of <= 3 distinct members over a small alphabet of member shapes, in every order
+        // (thorough: all of them; quick: a 1/10 sample drawn from the seed)
+        let all = famgen::small_families();
+        let total = all.len();
+        let mut taken = 0usize;
+        // own generator: the random streams below stay what they were for a given seed
+        let mut pick = Rng::new(seed ^ 0xe5a11);
+        for p in all {
+            if tier == "thorough" || pick.chance(1, 10) {
+                let (rj, labels) = labelled(&p);
+                push("exhaustive-small", &rj, Some(&labels), &mut shards, &mut meta);
+                taken += 1;
+            }
+        }
+        exhaustive = json!({"families_enumerated": total, "families_run": taken});
         let scale = if tier == "thorough" { 10 } else { 1 };
         for _ in 0..(500 * scale) {
             let p = famgen::family_program(&mut rng);
-            let (rj, _) = reggen::build(&p);
+            let (rj, labels) = labelled(&p);
             // all registry orders matter: also a consistently renumbered copy
-            push("family", &rj, &mut shards, &mut meta);
+            push("family", &rj, Some(&labels), &mut shards, &mut meta);
             if rng.chance(1, 3) {
                 let n = rj["types"].as_array().unwrap().len();
                 let mut perm: Vec<usize> = (0..n).collect();
                 rng.shuffle(&mut perm);
-                push("family-permuted", &crate::tgprops::renumber(&rj, &perm), &mut shards, &mut meta);
+                // perm[new position] = old position
+                let pl: Vec<Option<usize>> = perm.iter().map(|o| labels[*o]).collect();
+                push("family-permuted", &crate::tgprops::renumber(&rj, &perm), Some(&pl), &mut shards, &mut meta);
             }
         }
         for _ in 0..(150 * scale) {
             let p = famgen::noisy_program(&mut rng);
-            let (rj, _) = reggen::build(&p);
-            push("noisy-program", &rj, &mut shards, &mut meta);
+            let (rj, labels) = labelled(&p);
+            push("noisy-program", &rj, Some(&labels), &mut shards, &mut meta);
         }
         for (_, p) in crate::corpus::programs() {
-            let (rj, _) = reggen::build(&p);
-            push("arm-corpus", &rj, &mut shards, &mut meta);
+            let (rj, labels) = labelled(&p);
+            push("arm-corpus", &rj, Some(&labels), &mut shards, &mut meta);
         }
     }
     meta.evaluations = shards.len();
     meta.distinct_nontrivial = nontrivial;
-    meta.rule = "same-path families: a definition, mutated copies of it under the same path (changed field type / name / order / count, variants, parameter count or skipping), several instantiations each, optional digit-suffixed neighbour and nesting outer type, in original and permuted registry order; plus random programs with two definitions forced onto one path; non-trivial = distinct registry with at least one path carried by two or more entries".into();
-    meta.extra = json!({"generate_kinds_before_after_dedup": kinds});
+    meta.rule = "same-path families: a definition, mutated copies of it under the same path (changed field type / name / order / count, variants, parameter count or skipping), several instantiations each, optional digit-suffixed neighbour and nesting outer type, in original and permuted registry order; plus random programs with two definitions forced onto one path; plus the hand-built associated-type families (stream three-members); plus stream exhaustive-small: EVERY family of <= 3 distinct members a::F over the member alphabet {no parameter | one parameter used as the field type | one parameter unused} x field type {u8, u16} x {named, unnamed} x instantiation argument {u8, u16} (16 member shapes, members of one definition share its label), in every order - all 3616 in the thorough tier, a 1/10 sample drawn from the seed in the quick tier (extra.exhaustive_small_families); every entry carries the label of the source definition it instantiates (dd_defs, None outside the class of the C04 clause); non-trivial = distinct registry with at least one path carried by two or more entries".into();
+    meta.extra = json!({"generate_kinds_before_after_dedup": kinds, "exhaustive_small_families": exhaustive});
     shards.finish();
     meta
 }
